@@ -121,7 +121,12 @@ inline Py_ALWAYS_INLINE T ListGetItemAs(const py::handle& list, const py::ssize_
     }
     return py::reinterpret_steal<T>(item);
 #else
-    return py::reinterpret_borrow<T>(PyList_GET_ITEM(list.ptr(), index));
+    // NOTE: the list may have been shrunk by a user callback since its size was read.
+    PyObject* const item = PyList_GetItem(list.ptr(), index);
+    if (item == nullptr) [[unlikely]] {
+        throw py::error_already_set();
+    }
+    return py::reinterpret_borrow<T>(item);
 #endif
 }
 inline Py_ALWAYS_INLINE py::object ListGetItem(const py::handle& list, const py::ssize_t& index) {
